@@ -5,6 +5,20 @@ use crate::util::*;
 use seq_io::{fasta, fastq};
 use std::io::Write;
 
+/// A legal but awkward `io::Write`: accepts at most 3 bytes per `write` call and uses the trait's default
+/// `write_vectored` (which writes only the first non-empty slice). Writers that ignore short writes lose data here.
+pub struct ShortSink(pub Vec<u8>);
+impl Write for ShortSink {
+    fn write(&mut self, buf: &[u8]) -> std::io::Result<usize> {
+        let n = buf.len().min(3);
+        self.0.extend_from_slice(&buf[..n]);
+        Ok(n)
+    }
+    fn flush(&mut self) -> std::io::Result<()> {
+        Ok(())
+    }
+}
+
 fn split_head(h: &[u8]) -> (Vec<u8>, Option<Vec<u8>>) {
     match h.iter().position(|b| *b == b' ') {
         None => (h.to_vec(), None),
@@ -101,6 +115,14 @@ pub fn cmd_writer(out: &str, seed: u64, thorough: bool) {
             let owned = fasta::OwnedRecord { head: head.clone(), seq: seq.clone() };
             let mut o_owned = vec![];
             fasta::Record::write(&owned, &mut o_owned).unwrap();
+            // the same requests into the short-writing sink
+            let mut sk = ShortSink(vec![]);
+            fasta::write_to(&mut sk, head, seq).unwrap();
+            let s_write_to = std::mem::take(&mut sk.0);
+            fasta::write_parts(&mut sk, &id, desc.as_deref(), seq).unwrap();
+            let s_parts = std::mem::take(&mut sk.0);
+            fasta::Record::write(&owned, &mut sk).unwrap();
+            let s_owned = std::mem::take(&mut sk.0);
             let chs = chunkings(seq, &mut rng, 8);
             let mut iters = vec![];
             for c in &chs {
@@ -125,11 +147,19 @@ pub fn cmd_writer(out: &str, seed: u64, thorough: bool) {
                     fasta::write_wrap_seq_iter(&mut o, c.iter().map(|x| &x[..]), w).unwrap();
                     wi.push(format!("{{\"chunks\":{},\"out\":{}}}", jchunks(c), jb(&o)));
                 }
-                wraps.push(format!("{{\"w\":{},\"write_wrap\":{},\"head_wrap_seq\":{},\"owned_wrap\":{},\"iters\":[{}]}}", w, jb(&o1), jb(&o2), jb(&o3), wi.join(",")));
+                let mut sk = ShortSink(vec![]);
+                fasta::write_wrap(&mut sk, &id, desc.as_deref(), seq, w).unwrap();
+                let s1 = std::mem::take(&mut sk.0);
+                fasta::Record::write_wrap(&owned, &mut sk, w).unwrap();
+                let s3 = std::mem::take(&mut sk.0);
+                fasta::write_head(&mut sk, head).unwrap();
+                fasta::write_wrap_seq_iter(&mut sk, chs[chs.len() / 2].iter().map(|x| &x[..]), w).unwrap();
+                let s4 = std::mem::take(&mut sk.0);
+                wraps.push(format!("{{\"w\":{},\"write_wrap\":{},\"head_wrap_seq\":{},\"owned_wrap\":{},\"short_write_wrap\":{},\"short_owned_wrap\":{},\"short_iter\":{},\"iters\":[{}]}}", w, jb(&o1), jb(&o2), jb(&o3), jb(&s1), jb(&s3), jb(&s4), wi.join(",")));
             }
             writeln!(
                 f,
-                "{{\"ev\":\"wfa\",\"head\":{},\"id\":{},\"desc\":{},\"seq\":{},\"write_to\":{},\"write_parts\":{},\"head_seq\":{},\"iddesc_seq\":{},\"owned\":{},\"iters\":[{}],\"wraps\":[{}]}}",
+                "{{\"ev\":\"wfa\",\"head\":{},\"id\":{},\"desc\":{},\"seq\":{},\"write_to\":{},\"write_parts\":{},\"head_seq\":{},\"iddesc_seq\":{},\"owned\":{},\"short\":[{},{},{}],\"iters\":[{}],\"wraps\":[{}]}}",
                 jb(head),
                 jb(&id),
                 jopt(desc.as_deref()),
@@ -139,6 +169,9 @@ pub fn cmd_writer(out: &str, seed: u64, thorough: bool) {
                 jb(&o_head_seq),
                 jb(&o_iddesc_seq),
                 jb(&o_owned),
+                jb(&s_write_to),
+                jb(&s_parts),
+                jb(&s_owned),
                 iters.join(","),
                 wraps.join(",")
             )
@@ -162,9 +195,16 @@ pub fn cmd_writer(out: &str, seed: u64, thorough: bool) {
             let owned = fastq::OwnedRecord { head: head.clone(), seq: seq.clone(), qual: qual.clone() };
             let mut o3 = vec![];
             fastq::Record::write(&owned, &mut o3).unwrap();
+            let mut sk = ShortSink(vec![]);
+            fastq::write_to(&mut sk, head, seq, &qual).unwrap();
+            let q1 = std::mem::take(&mut sk.0);
+            fastq::write_parts(&mut sk, &id, desc.as_deref(), seq, &qual).unwrap();
+            let q2 = std::mem::take(&mut sk.0);
+            fastq::Record::write(&owned, &mut sk).unwrap();
+            let q3 = std::mem::take(&mut sk.0);
             writeln!(
                 f,
-                "{{\"ev\":\"wfq\",\"head\":{},\"id\":{},\"desc\":{},\"seq\":{},\"qual\":{},\"write_to\":{},\"write_parts\":{},\"owned\":{}}}",
+                "{{\"ev\":\"wfq\",\"head\":{},\"id\":{},\"desc\":{},\"seq\":{},\"qual\":{},\"write_to\":{},\"write_parts\":{},\"owned\":{},\"short\":[{},{},{}]}}",
                 jb(head),
                 jb(&id),
                 jopt(desc.as_deref()),
@@ -172,7 +212,10 @@ pub fn cmd_writer(out: &str, seed: u64, thorough: bool) {
                 jb(&qual),
                 jb(&o1),
                 jb(&o2),
-                jb(&o3)
+                jb(&o3),
+                jb(&q1),
+                jb(&q2),
+                jb(&q3)
             )
             .unwrap();
             n += 1;
@@ -353,27 +396,26 @@ pub fn cmd_iters(out: &str, seed: u64, thorough: bool) {
         let cap = *rng.pick(&[3usize, 8, 16, 64]);
         let mut sets: Vec<String> = vec![];
         let mut owned_after: Vec<bool> = vec![];
-        let mut hints_ok = true;
+        let hints_ok = true;
         if fmt == "fasta" {
             let mut rdr = fasta::Reader::with_capacity(&x[..], cap);
             let mut set = fasta::RecordSet::default();
             while let Some(Ok(())) = rdr.read_record_set(&mut set) {
                 let mut it = (&set).into_iter();
                 let mut items = vec![];
+                let mut hints = vec![];
                 loop {
                     let (lo, hi) = it.size_hint();
-                    let item = it.next();
-                    let remaining_before = if item.is_some() { 1 } else { 0 };
-                    if lo > remaining_before + 1000000 || hi.map(|h| h < remaining_before).unwrap_or(false) {
-                        hints_ok = false;
-                    }
-                    match item {
+                    hints.push(format!("[{},{}]", lo, hi.map(|h| h as i64).unwrap_or(-1)));
+                    match it.next() {
                         Some(r) => items.push(crate::reader::fa::rec_json(&r, false, false)),
                         None => break,
                     }
                 }
+                let (lo, hi) = it.size_hint();
+                hints.push(format!("[{},{}]", lo, hi.map(|h| h as i64).unwrap_or(-1)));
                 let after: Vec<bool> = (0..3).map(|_| it.next().is_none()).collect();
-                sets.push(format!("{{\"len\":{},\"items\":[{}],\"after\":{:?}}}", set.len(), items.join(","), after));
+                sets.push(format!("{{\"len\":{},\"items\":[{}],\"after\":{:?},\"hints\":[{}]}}", set.len(), items.join(","), after, hints.join(",")));
             }
             let mut rdr2 = fasta::Reader::with_capacity(&x[..], cap);
             let mut it = rdr2.records();
@@ -385,11 +427,19 @@ pub fn cmd_iters(out: &str, seed: u64, thorough: bool) {
             while let Some(Ok(())) = rdr.read_record_set(&mut set) {
                 let mut it = (&set).into_iter();
                 let mut items = vec![];
-                while let Some(r) = it.next() {
-                    items.push(crate::reader::fq::rec_json(&r, false, false));
+                let mut hints = vec![];
+                loop {
+                    let (lo, hi) = it.size_hint();
+                    hints.push(format!("[{},{}]", lo, hi.map(|h| h as i64).unwrap_or(-1)));
+                    match it.next() {
+                        Some(r) => items.push(crate::reader::fq::rec_json(&r, false, false)),
+                        None => break,
+                    }
                 }
+                let (lo, hi) = it.size_hint();
+                hints.push(format!("[{},{}]", lo, hi.map(|h| h as i64).unwrap_or(-1)));
                 let after: Vec<bool> = (0..3).map(|_| it.next().is_none()).collect();
-                sets.push(format!("{{\"len\":{},\"items\":[{}],\"after\":{:?}}}", set.len(), items.join(","), after));
+                sets.push(format!("{{\"len\":{},\"items\":[{}],\"after\":{:?},\"hints\":[{}]}}", set.len(), items.join(","), after, hints.join(",")));
             }
             let mut rdr2 = fastq::Reader::with_capacity(&x[..], cap);
             let mut it = rdr2.records();
